@@ -17,13 +17,23 @@ RowAt(x) == [marker |-> x.marker, crash |-> x.crash, upload |-> x.upload, mode |
 OutAt(x) == [sidecars |-> x.sidecars, uploaders |-> x.uploaders, nested |-> x.nested, launched |-> x.launched,
              acquired |-> x.acquired, wrote |-> SetOf(x.wrote)]
 WellFormed(x) == RowAt(x) \in Rows
-ClauseAt(c, x) == Holds(c, RowAt(x), OutAt(x))
+(* several real processes started at once (kind "race"): with no stale token *)
+(* present at most one of them gets an uploader sidecar                      *)
+RaceAtMostOne(x) == (x.kind = "race" /\ x.token # "stale") => (IF x.token = "fresh" THEN 1 ELSE 0) + x.uploaders <= 1
+ClauseAt(c, x) == IF c = "RaceAtMostOne" THEN RaceAtMostOne(x)
+                  ELSE IF x.kind = "race" /\ c = "NeverRecursive" THEN x.nested = 0
+                  ELSE Holds(c, RowAt(x), OutAt(x))
+AllClauseNames == Clauses \cup {"RaceAtMostOne"}
 (* exact agreement with the table (a disagreement that falsifies no clause   *)
 (* is a divergence of the model, not a violation)                            *)
-ConformsAt(x) == OutAt(x) = Predicted(RowAt(x))
+ConformsAt(x) == IF x.kind = "race"
+                 THEN /\ x.sidecars = x.uploaders /\ x.nested = 0
+                      /\ x.uploaders = (CASE x.token = "fresh" -> 0 [] x.token = "absent" -> 1 [] OTHER -> x.uploaders)
+                      /\ (x.token = "stale" => x.uploaders >= 1)
+                 ELSE Conforms(RowAt(x), OutAt(x)) /\ x.fatal = Launch(RowAt(x)).fatal
 
-AllClauses == WellFormed(Trace[l]) /\ \A c \in Clauses : ClauseAt(c, Trace[l])
-Bad == UNION {{<<i, c>> : i \in {j \in 1..Len(Trace) : ~ClauseAt(c, Trace[j])}} : c \in Clauses}
+AllClauses == WellFormed(Trace[l]) /\ \A c \in AllClauseNames : ClauseAt(c, Trace[l])
+Bad == UNION {{<<i, c>> : i \in {j \in 1..Len(Trace) : ~ClauseAt(c, Trace[j])}} : c \in AllClauseNames}
 Diverged == {i \in 1..Len(Trace) : ~ConformsAt(Trace[i])}
 ASSUME \A i \in 1..Len(Trace) : WellFormed(Trace[i])
 ASSUME PrintT(<<"C16ROWS", Bad, Diverged>>)
